@@ -30,7 +30,7 @@ RULE = ('random frame arrays: 1..6 channels (distinct str identities, some wider
 
 ASSUMPTIONS = [
     'channel identities are str (RP66V1/BIT/DAT/LAS callers all pass str); int/bytes identities are API-only and recorded as a defect candidate in notes/C10.md',
-    'identities/units are non-empty-or-blank-free tokens without " ", ".", ":" that do not start with "#" or "~" and are not read as a number/yes/no by the reader (those are finding F-C10-1)',
+    'identities/units are non-empty-or-blank-free tokens without " ", ".", ":" that do not start with "#" or "~" and are not read as a number/yes/no by the reader (those are finding C09-numeric-looking-mnemonic-retyped)',
     'no NaN/inf values (the reader maps nan/inf text to float nan/inf; "within half a unit" is meaningless there)',
     'X axis values are distinct after printing (the reader rejects duplicate X values); colliding cases are counted and only checked at text level',
     'Python float(text) is correctly rounded (checked: |readback - printed| <= ulp/2)',
@@ -38,6 +38,10 @@ ASSUMPTIONS = [
 TRUSTED = ['modelled, not verified: CPython float.__format__ / int.__format__ (replaced by fmtFixed / intText in the model and compared on every printed row and on a separate probe stream)',
            'modelled, not verified: numpy first/min/max/mean/median (model: exact rationals; float rounding of mean/median bounded by an ulp tolerance in the harness)',
            'numpy, fractions.Fraction as the oracle arithmetic']
+
+ANCHOR_FILES = ['src/TotalDepth/LAS/core/WriteLAS.py', 'src/TotalDepth/LAS/core/LASRead.py', 'src/TotalDepth/common/data_table.py',
+                'src/TotalDepth/common/LogPass.py']
+F_RETYPED = 'C09-numeric-looking-mnemonic-retyped'
 
 HEADER = ('~Version Information Section\nVERS. 2.0 : CWLS\nWRAP. NO : one line per frame\n'
           '~Well Information Section\nNULL. -999.25 :\n')
@@ -500,9 +504,9 @@ def probe_format(ctx):
 
 
 def known_name_cases(ctx):
-    """F-C10-1: a channel whose name the reader converts to a number / bool does not read back under its name; for
-    NO/YES/0/1 the converted name (False/True/0/1) also aliases a channel INDEX in FrameArray.__getitem__, so the values
-    land in the wrong channel and channel 0 keeps uninitialised memory (sometimes 'Duplicate Xaxis value')."""
+    """C09-numeric-looking-mnemonic-retyped (was F-C10-1): a channel whose name the reader converts to a number / bool
+    does not read back under its name.  The value-placement part (NO/YES/0/1 aliasing a channel index) is repaired in
+    /repo: wrong values or a reader exception on these cases are UNLISTED failures."""
     for name in ('NO', 'Yes', '123', '1E3', 'nan', '1'):
         case = {'chans': [{'ident': 'DEPT', 'units': 'm', 'units_bytes': False, 'long': 'Depth', 'long_bytes': False, 'dtype': 'float64',
                            'shape': [1], 'values': [[(1.0).hex()], [(2.0).hex()]]},
@@ -529,13 +533,15 @@ def run_known(ctx, case):
         got = [ch.ident for ch in las.frame_array.channels]
         vals = [[float(x) for x in np.ma.getdata(ch.array)[:, 0]] for ch in las.frame_array.channels]
     except Exception as e:                                      # noqa
-        ctx.fail(case, f'reader raised {type(e).__name__}: {e} (mnemonic converted by string_to_value aliases a channel index)',
-                 finding='F-C10-1')
+        ctx.fail(case, f'reader raised {type(e).__name__}: {e} on a channel named like a value (repaired class: must read)')
         return False
     wv = [[float(x) for x in fch.array[:, 0]] for fch in fa.channels]
-    if [repr(g) for g in got] != [repr(w) for w in want] or vals != wv:
-        ctx.fail(case, f'read-back channel names {got!r} values {vals!r}, expected {want!r} {wv!r} '
-                       f'(the reader converts mnemonics with string_to_value)', finding='F-C10-1')
+    if vals != wv:
+        ctx.fail(case, f'read-back values {vals!r}, expected {wv!r} (channel named like a value: repaired class)')
+        return False
+    if [repr(g) for g in got] != [repr(w) for w in want]:
+        ctx.fail(case, f'read-back channel names {got!r}, expected {want!r} '
+                       f'(the reader converts mnemonics with string_to_value)', finding=F_RETYPED)
         return False
     return True
 
@@ -560,7 +566,7 @@ def run(ctx):
         probe_format(ctx)
     else:
         ctx.note('model driver not available: correspondence skipped')
-    ctx.note('excluded: NaN/inf values; identities read as numbers/yes/no by the reader are run separately as finding F-C10-1; '
+    ctx.note('excluded: NaN/inf values; identities read as numbers/yes/no by the reader are run separately as finding C09-numeric-looking-mnemonic-retyped; '
              'int/bytes identities (API only) are described in notes/C10.md')
 
 
